@@ -34,8 +34,7 @@ ProbeLevels(e) == CASE e = "composer" -> {3, 4} [] e = "pypi" -> {3, 4} [] e \in
 
 -----------------------------------------------------------------------------
 (* bases *)
-XS == {0, 1, 2, 9}
-ZS == {0, 3, 9}
+CONSTANTS XS, ZS       \* component values of the bases: {0,1,2,9} / {0,3,9} (quick), wider in the thorough tier
 B3 == {V(x, y, z, 3) : x \in XS, y \in XS, z \in ZS}
 B2 == {V(x, y, 0, 3) : x \in XS, y \in XS}
 B1 == {V(x, 0, 0, 3) : x \in XS}
